@@ -180,7 +180,7 @@ theorem pendLookup_cons_none {m : List (K × Entry V)} {rest : List (List (K × 
     `maxDepth` blocks returns that value (a hit), when no LRU evicts during the lookup -/
 theorem Sys.step_complete {T : Tree K B V} (s : Sys H K B V) (op : Op H K B V) (hS : SysInv s T)
     {pend : List (List (K × Entry V))} {b c : B} {k : K} {x : Blk K B V} {v : V} {n : Nat}
-    (hctx : s.ctx T false op = some (pend, b, k)) (hp : pendLookup pend k = none)
+    (hctx : s.ctx op = some (pend, b, k)) (hp : pendLookup pend k = none)
     (hwalk : WalkN T k n b c) (hn : n ≤ s.sc.maxDepth) (hx : T.find c = some x)
     (hw : alookup x.writes k = some (.val v)) (hev : (s.step op).1.sc.evictions = s.sc.evictions) :
     (s.step op).2 = .hit v := by
@@ -198,7 +198,7 @@ theorem Sys.step_complete {T : Tree K B V} (s : Sys H K B V) (op : Op H K B V) (
         cases h4 : alookup s.bcs h with
         | none => simp [h4] at hctx
         | some bc =>
-          simp only [h4, Bool.false_and, Bool.false_eq_true, if_false, Option.some.injEq, Prod.mk.injEq] at hctx hev ⊢
+          simp only [h4, Option.some.injEq, Prod.mk.injEq] at hctx hev ⊢
           obtain ⟨rfl, rfl, rfl⟩ := hctx
           obtain ⟨hp1, hp'⟩ := pendLookup_cons_none hp
           obtain ⟨hp2, _⟩ := pendLookup_cons_none hp'
@@ -218,7 +218,7 @@ theorem Sys.step_complete {T : Tree K B V} (s : Sys H K B V) (op : Op H K B V) (
     cases h4 : alookup s.bcs h with
     | none => simp [h4] at hctx
     | some bc =>
-      simp only [h4, Bool.false_and, Bool.false_eq_true, if_false, Option.some.injEq, Prod.mk.injEq] at hctx hev ⊢
+      simp only [h4, Option.some.injEq, Prod.mk.injEq] at hctx hev ⊢
       obtain ⟨rfl, rfl, rfl⟩ := hctx
       obtain ⟨hp2, _⟩ := pendLookup_cons_none hp
       unfold BC.get at hev ⊢
